@@ -95,7 +95,12 @@ META = {
                   "and as macro library that is imported and called); a fourth layout of every run-time failing case and of the cga "
                   "stream: every tag on a line of its own with the white space around it trimmed ({{- -}} / {%- -%}), so that "
                   "neighbouring constructs have no instruction on a common line — an error attached to the instruction before / "
-                  "after the failing one then reports a line outside the failing construct; every error of the err stream is additionally formatted in its 5 forms "
+                  "after the failing one then reports a line outside the failing construct; the LINE TERMINATOR axis (after seeded change "
+                  "C14-8): layouts 11 / 12 put a lone CR / a CRLF directly behind every tag end of every failing case, run in the "
+                  "default configuration and under trim_blocks+lstrip_blocks and keep_trailing_newline (a lone CR is no line: line = "
+                  "1 + number of LF in the prefix, theorem advance_line; the construct's lines are taken from the default-configuration "
+                  "token stream, so the reported line may not depend on the white-space switches), lone-CR pieces behind block / "
+                  "comment / endraw ends in the lexer soup alphabet (model correspondence of skip_newline_if_trim_blocks); every error of the err stream is additionally formatted in its 5 forms "
                   "into fmt::Write sinks that fail after 0, 1, k/8.., len-1 bytes (a panic there is a failing input).",
 }
 
@@ -240,7 +245,7 @@ UNANCHORED = {"expr_empty", "expr_ws_only"}
 V_N = {0: 0, 1: 1, 2: 2, 3: 7, 4: 300, 5: None, 6: 70000}   # 5: fill up to exactly 65535 lines, 6: beyond the quantifier
 EXPLODED_FIRST = 7   # vertical variants 7, 8, 9: a newline at every / every even / every odd token gap inside the tags
 EXPLODED_NAMES = {7: "newline at every token gap", 8: "newline at every even token gap", 9: "newline at every odd token gap",
-                  10: "every tag on its own line, white space trimmed"}
+                  10: "every tag on its own line, white space trimmed", 11: "lone CR behind every tag end", 12: "CRLF behind every tag end"}
 TRIMMED_LAYOUT = 10   # changes the data between the tags: what the values say may differ, where errors point may not
 ENTRY_CFGS = ("1", "2", "3", "4", "5")
 
@@ -616,7 +621,7 @@ def do_err(r, q, pending, err_recs, classes):
             elif exploded:
                 # another layout of the same template: same chain of the same errors; where they point is bounded
                 # by the right-line check above (the lines of the failing operation's own tokens)
-                same = (lambda x: (x.name, x.kind)) if vi == TRIMMED_LAYOUT else (lambda x: (x.name, x.kind, x.detail))
+                same = (lambda x: (x.name, x.kind)) if vi >= TRIMMED_LAYOUT else (lambda x: (x.name, x.kind, x.detail))
                 if rec["how"] != brec["how"] or [same(x) for x in be] != [same(x) for x in se]:
                     r.oracle_failure(case, f"line breaks between the tokens of the tags change the error chain: {brec['how']} {[x.brief() for x in be]} -> "
                                      f"{rec['how']} {[x.brief() for x in se]}", "layout-changes-chain")
